@@ -100,9 +100,12 @@ def x0_of(sysd, x0kind):
 
 
 # ---------------------------------------------------------------- running the implementation
-def run_impl(solver, A, y, x0, damp, niter, tol, trace):
+def run_impl(solver, A, y, x0, damp, niter, tol, trace, drive="solve"):
     """One call of the real pylops solver; returns everything it returned and
-    everything the callbacks saw."""
+    everything the callbacks saw.  drive = "solve" (functional API, or class API
+    with a Callbacks object when trace), "manual" (class API: setup, niter x
+    step, finalize; the iterates are logged by the harness after each step),
+    "mixed" (setup, one manual step, run(niter), finalize)."""
     import pylops
     from pylops.optimization.callback import Callbacks
     from pylops.optimization.cls_basic import CG, CGLS
@@ -114,7 +117,22 @@ def run_impl(solver, A, y, x0, damp, niter, tol, trace):
 
     x0c = None if x0 is None else x0.copy()
     out = {"solver": solver, "trace": trace}
-    if trace:
+    if drive in ("manual", "mixed"):
+        s = (CG if solver == "cg" else CGLS)(Op)
+        s.callback = cb
+        kw = dict(y=y.copy(), x0=x0c, niter=niter, tol=tol)
+        if solver == "cgls":
+            kw["damp"] = damp
+        x = s.setup(**kw)
+        nman = niter if drive == "manual" else min(1, niter)
+        for _ in range(nman):
+            x = s.step(x)
+            cbs.append(np.array(x, copy=True))
+        if drive == "mixed":
+            x = s.run(x, niter)
+        s.finalize()
+        res = (x, s.iiter, s.cost) if solver == "cg" else (x, s.istop, s.iiter, s.r1norm, s.r2norm, s.cost)
+    elif trace:
         class Tr(Callbacks):
             def on_step_begin(self, s, x):
                 begins.append((int(s.iiter), np.array(x, copy=True)))
@@ -198,15 +216,16 @@ def py_checks(case, out):
 
 
 # ---------------------------------------------------------------- LSQR vs SciPy (oracle)
-def lsqr_checks(A, y, x0, damp, niter):
+def lsqr_checks(A, y, x0, damp, niter, tols=0.0):
     """pylops.lsqr vs scipy.sparse.linalg.lsqr(iter_lim=k) for every k; returns
     (bad list, n_comparisons, info)."""
     import pylops
     from scipy.sparse.linalg import lsqr as slsqr
     Op = pylops.MatrixMult(A.copy(), dtype=A.dtype)
     its = []
-    out = pylops.lsqr(Op, y.copy(), x0=None if x0 is None else x0.copy(), damp=damp, atol=0, btol=0, conlim=0, niter=niter,
-                      callback=lambda z: its.append(np.array(z, copy=True)))
+    tk = dict(atol=tols, btol=tols, conlim=(0 if tols == 0 else 1e8))
+    out = pylops.lsqr(Op, y.copy(), x0=None if x0 is None else x0.copy(), damp=damp, niter=niter,
+                      callback=lambda z: its.append(np.array(z, copy=True)), **tk)
     x, istop, itn, r1, r2, anorm, acond, arnorm, xnorm, var, cost = out
     cost = np.atleast_1d(cost)
     n = A.shape[1]
@@ -223,7 +242,7 @@ def lsqr_checks(A, y, x0, damp, niter):
         bad.append(("cost", "cost[0]=%.12g but ||y-Op x0||=%.12g" % (cost[0], np.linalg.norm(y - A @ xb))))
     last = None
     for k in range(1, min(itn, len(its), len(cost) - 1) + 1):
-        s = slsqr(A, y, damp=damp, atol=0, btol=0, conlim=0, iter_lim=k, x0=None if x0 is None else x0.copy())
+        s = slsqr(A, y, damp=damp, iter_lim=k, x0=None if x0 is None else x0.copy(), **tk)
         if s[2] != k:
             continue          # SciPy stopped earlier on a machine-precision test
         ncmp += 1
@@ -239,7 +258,7 @@ def lsqr_checks(A, y, x0, damp, niter):
             break
     # beyond min(m, n) steps the bidiagonalisation has broken down (beta ~ 0 in exact arithmetic) and the norm
     # ESTIMATES of both implementations are amplified rounding noise: they are compared up to that point only
-    if last is not None and last[2] == itn and not bad and itn <= min(A.shape):
+    if last is not None and last[2] == itn and not bad and itn <= min(min(A.shape), gk_reliable(A, y, xb, itn + 1)):
         for name, a, b, sc in (("r1norm", r1, last[3], scale), ("r2norm", r2, last[4], scale), ("anorm", anorm, last[5], 1 + last[5]),
                                ("acond", acond, last[6], 1 + last[6]), ("arnorm", arnorm, last[7], (1 + last[5]) * scale),
                                ("xnorm", xnorm, last[8], 1 + last[8])):
@@ -253,12 +272,85 @@ def lsqr_checks(A, y, x0, damp, niter):
         if J[k + 1] > J[k] + 1e-9 * (1 + abs(J[k])):
             bad.append(("monotone", "lsqr functional J(x_%d)=%.12g > J(x_%d)=%.12g" % (k + 1, J[k + 1], k, J[k])))
             break
-    if niter >= n:
+    bad += lsqr_manual_checks(Op, A, y, x0, damp, niter, tk, cost, x)
+    if niter >= n and tols == 0:
         xd = dense_solution("lsqr", A, None, y, x0, damp)
         err = float(np.linalg.norm(x - xd) / (1e-300 + np.linalg.norm(xd)))
         if err > 1e-8:
             bad.append(("minimiser", "relative distance of the returned x to the dense solution = %.3e after niter=%d >= n=%d" % (err, niter, n)))
     return bad, ncmp, {"itn": int(itn), "istop": int(istop)}
+
+
+def gk_reliable(A, y, xb, kmax):
+    """Largest LSQR iteration whose norm ESTIMATES are determined by the data rather than by rounding noise: the
+    Golub-Kahan recurrence is run in floating point; iteration k uses beta_{k+1}, alfa_{k+1}.  An EXACT zero is a
+    clean breakdown (both implementations take the same branch); a tiny non-zero value (< 1e-9 ||A||_F) is noise
+    that the next iteration normalises to a garbage unit vector."""
+    sc = 1e-9 * float(np.linalg.norm(A))
+    u = y - A @ xb
+    beta = float(np.linalg.norm(u))
+    if beta == 0:
+        return 0
+    u = u / beta
+    v = A.conj().T @ u
+    alfa = float(np.linalg.norm(v))
+    if alfa == 0:
+        return 0
+    v = v / alfa
+    for k in range(1, kmax + 1):
+        u = A @ v - alfa * u
+        beta = float(np.linalg.norm(u))
+        if beta == 0 or beta < sc:
+            return k
+        u = u / beta
+        v = A.conj().T @ u - beta * v
+        alfa = float(np.linalg.norm(v))
+        if alfa == 0 or alfa < sc:
+            return k
+        v = v / alfa
+    return kmax
+
+
+def lsqr_manual_checks(Op, A, y, x0, damp, niter, tk, cost_ref, x_ref):
+    """LSQR class API driven by hand (setup + k x step [+ run] + finalize): after every step the cost history has
+    1 + iiter entries, and it is the same history (and the same x) as the functional call produced."""
+    from pylops.optimization.cls_basic import LSQR
+    bad = []
+    kman = min(2, len(cost_ref) - 1)
+    for mode in ("manual", "mixed"):
+        s = LSQR(Op)
+        x = s.setup(y.copy(), x0=None if x0 is None else x0.copy(), damp=damp, niter=max(niter, 1), **tk)
+        for k in range(kman if mode == "manual" else min(1, kman)):
+            x = s.step(x)
+            if len(s.cost) != 1 + s.iiter:
+                bad.append(("lsqr_manual", "%s drive: after manual step %d len(cost)=%d but iiter=%d" % (mode, k + 1, len(s.cost), s.iiter)))
+                return bad
+        if mode == "mixed":
+            x = s.run(x, niter)
+        s.finalize()
+        c = np.atleast_1d(s.cost)
+        if len(c) != 1 + s.iiter:
+            bad.append(("lsqr_manual", "%s drive: len(cost)=%d but iiter=%d" % (mode, len(c), s.iiter)))
+        elif np.abs(c - np.asarray(cost_ref)[:len(c)]).max(initial=0) > 1e-9 * (1 + np.abs(cost_ref).max()):
+            bad.append(("lsqr_manual", "%s drive: cost history differs from the functional call's" % mode))
+        elif mode == "mixed" and (len(c) != len(cost_ref) or np.abs(x - x_ref).max() > 1e-9 * (1 + np.abs(x_ref).max())):
+            bad.append(("lsqr_manual", "mixed drive (1 step + run): result differs from the functional call's"))
+    return bad
+
+
+def breakdown_systems(cplx):
+    """Integer systems on which the Golub-Kahan bidiagonalisation breaks down EXACTLY (beta == 0) at step 1 or 2."""
+    u = (1j if cplx else 1.0)
+    T = np.zeros((6, 3)); T[0, 0] = 2.0; T[2, 1] = 4.0; T[5, 2] = 0.5
+    W = np.zeros((3, 6)); W[0, 1] = 2.0; W[1, 3] = 1.0; W[2, 4] = 4.0
+    D = np.diag([1.0, 4.0, 2.0, 8.0])
+    out = [("2I", 2.0 * np.eye(5), np.array([3.0, 0.0, 4.0, 0.0, 0.0])),
+           ("diag,e2", D, np.array([0.0, 0.0, 1.0, 0.0])),
+           ("diag,e0+e3", D, np.array([1.0, 0.0, 0.0, 2.0])),      # two singular directions: breakdown at step 2
+           ("tall,col", T, T[:, 1].copy()),
+           ("wide,e1", W, np.array([1.0, 0.0, 0.0]))]
+    return [(nm, (A * u).astype(complex if cplx else float), (y * (1 if not cplx else (1 - 2j))).astype(complex if cplx else float))
+            for nm, A, y in out]
 
 
 # ---------------------------------------------------------------- literals
@@ -329,16 +421,25 @@ def build_cases(tier):
                     for x0k in ("none", "zeros", "rand"):
                         for damp in (DAMPS if solver == "cgls" else [0.0]):
                             kid += 1
-                            for ni in niters + ["tol"]:
+                            for ni in niters + ["tol", "manual", "mixed"]:
                                 cid += 1
                                 cases.append({"id": cid, "kid": kid, "exec": ni == n + 3, "solver": solver, "kind": kind, "cplx": cplx, "seed": sd, "Aop": Aop,
                                               "H": sysd["H"], "y": sysd["y"], "x0k": x0k, "x0": x0_of(sysd, x0k), "damp": damp,
-                                              "niter": ni, "tol": TOL0, "trace": (cid % 3 == 0)})
+                                              "niter": ni, "tol": TOL0, "trace": (cid % 3 == 0), "drive": "solve"})
                 for x0k in ("none", "zeros", "rand"):
                     for damp in DAMPS:
                         for ni in niters:
                             lsq.append({"kind": kind, "cplx": cplx, "seed": sd, "A": sysd["A"], "y": sysd["y"], "x0k": x0k,
                                         "x0": x0_of(sysd, x0k), "damp": damp, "niter": ni})
+    for cplx in (False, True):
+        for nm, A, y in breakdown_systems(cplx):
+            for x0k in ("none", "zeros"):
+                for damp in DAMPS:
+                    for ni in (1, 2, 3):
+                        for tols in (0.0, 1e-8):
+                            lsq.append({"kind": "breakdown:" + nm, "cplx": cplx, "seed": 0, "A": A, "y": y, "x0k": x0k,
+                                        "x0": None if x0k == "none" else np.zeros(A.shape[1], dtype=A.dtype), "damp": damp,
+                                        "niter": ni, "tols": tols})
     return cases, lsq
 
 
@@ -346,6 +447,10 @@ def run_cases(cases):
     outs = {}
     for c in cases:
         n = c["Aop"].shape[1]
+        if c["niter"] == "manual":      # class API driven by hand: setup + 2 x step + finalize
+            c.update(niter=2, drive="manual", trace=False, exec=False)
+        elif c["niter"] == "mixed":     # setup + 1 manual step + run(n + 3) + finalize
+            c.update(niter=n + 3, drive="mixed", trace=False, exec=False)
         if c["niter"] == "tol":
             # early termination by tolerance: place tol between the kold values of a full run
             full = run_impl(c["solver"], c["Aop"], c["y"], c["x0"], c["damp"], n + 3, TOL0, False)
@@ -360,7 +465,8 @@ def run_cases(cases):
             if t is not None:
                 c["tol"] = t
         try:
-            outs[c["id"]] = run_impl(c["solver"], c["Aop"], c["y"], c["x0"], c["damp"], c["niter"], c["tol"], c["trace"])
+            outs[c["id"]] = run_impl(c["solver"], c["Aop"], c["y"], c["x0"], c["damp"], c["niter"], c["tol"], c["trace"],
+                                     c.get("drive", "solve"))
         except Exception as e:  # the solver raised on a valid system
             outs[c["id"]] = {"error": "%s: %s" % (type(e).__name__, e)}
     return outs
@@ -443,7 +549,7 @@ def run(tier, pid="C09"):
     lres = []
     for L in lsq:
         try:
-            bad, ncmp, info = lsqr_checks(L["A"], L["y"], L["x0"], L["damp"], L["niter"])
+            bad, ncmp, info = lsqr_checks(L["A"], L["y"], L["x0"], L["damp"], L["niter"], L.get("tols", 0.0))
         except Exception as e:
             bad, ncmp, info = [("error", "%s: %s" % (type(e).__name__, e))], 0, {}
         lres.append((bad, ncmp, info))
@@ -482,7 +588,8 @@ def replay_dict(c, kind, detail):
     A = c["Aop"] if "Aop" in c else c["A"]
     return {"solver": c.get("solver", "lsqr"), "kind": kind, "detail": detail, "shape": list(A.shape), "cplx": bool(c["cplx"]),
             "A": _ser(A), "y": _ser(c["y"]), "x0": _ser(c["x0"]), "damp": c["damp"], "niter": c["niter"],
-            "tol": c.get("tol", 0.0), "trace": bool(c.get("trace", False)),
+            "tol": c.get("tol", 0.0), "trace": bool(c.get("trace", False)), "drive": c.get("drive", "solve"),
+            "tols": c.get("tols", 0.0),
             "call": "pylops.%s(MatrixMult(A), y, x0=x0, niter=niter%s)" % (
                 c.get("solver", "lsqr"), "" if c.get("solver") == "cg" else ", damp=damp")}
 
@@ -495,10 +602,10 @@ def replay(rp, kinds):
         y = y.astype(complex)
         x0 = None if x0 is None else x0.astype(complex)
     if rp["solver"] == "lsqr":
-        bad, _, _ = lsqr_checks(A, y, x0, rp["damp"], rp["niter"])
+        bad, _, _ = lsqr_checks(A, y, x0, rp["damp"], rp["niter"], rp.get("tols", 0.0))
     else:
         c = {"solver": rp["solver"], "Aop": A, "H": A, "y": y, "x0": x0, "damp": rp["damp"], "niter": rp["niter"], "tol": rp["tol"]}
-        out = run_impl(rp["solver"], A, y, x0, rp["damp"], rp["niter"], rp["tol"], rp.get("trace", False))
+        out = run_impl(rp["solver"], A, y, x0, rp["damp"], rp["niter"], rp["tol"], rp.get("trace", False), rp.get("drive", "solve"))
         bad = py_checks(c, out) + trace_checks(c, out)
     hit = [b for b in bad if b[0] == rp["kind"]]
     for b in hit:
@@ -535,7 +642,7 @@ KINDS = {
     "C09": {"minimiser", "lsqr_iterate", "lsqr_cost", "lsqr_r1norm", "lsqr_r2norm", "lsqr_anorm", "lsqr_acond", "lsqr_arnorm",
             "lsqr_xnorm", "error"},
     "C10": {"cost_length", "callback_count", "callback_last", "cost", "r1norm", "r2norm", "monotone", "trace_count", "trace_begin",
-            "trace_end", "lsqr_cost", "lsqr_r1norm", "lsqr_r2norm", "iiter", "error"},
+            "trace_end", "lsqr_cost", "lsqr_r1norm", "lsqr_r2norm", "lsqr_manual", "iiter", "error"},
 }
 CODES = {"C09": {1, 4, 15}, "C10": {1, 2, 3, 5, 6, 7, 9, 10, 11, 12, 13, 14, 15}}
 CODE_KIND = {10: ("cost", "cost_length", "callback_count"), 11: ("r2norm",), 12: ("r1norm",), 14: ("monotone",)}
@@ -548,8 +655,9 @@ CODE_TXT = {1: "iterates differ from the model's", 2: "cost history differs from
 
 def describe(c):
     A = c["Aop"] if "Aop" in c else c["A"]
-    return "%s %s %dx%d %s x0=%s damp=%s niter=%s tol=%.3g" % (c.get("solver", "lsqr"), c["kind"], A.shape[0], A.shape[1],
-                                                              "complex" if c["cplx"] else "real", c["x0k"], c["damp"], c["niter"], c.get("tol", 0.0))
+    return "%s %s %dx%d %s x0=%s damp=%s niter=%s tol=%.3g%s" % (c.get("solver", "lsqr"), c["kind"], A.shape[0], A.shape[1],
+                                                                "complex" if c["cplx"] else "real", c["x0k"], c["damp"], c["niter"], c.get("tol", 0.0),
+                                                                "" if c.get("drive", "solve") == "solve" else " drive=" + c["drive"])
 
 
 def report(pid, tier, extra=None):
@@ -586,7 +694,7 @@ def report(pid, tier, extra=None):
             R.violation("%s raised on a valid system: %s (%s)" % (c["solver"], o["error"], describe(c)), replay_dict(c, "error", o["error"]))
             continue
         if o["iiter"] >= 1 and np.any(o["x"]):
-            nontriv.add((c["kid"], c["niter"], c["tol"]))
+            nontriv.add((c["kid"], c["niter"], c["tol"], c.get("drive", "solve")))
         cs = set(codes.get(c["id"], [])) if c.get("coq") else set()
         bad = allbad[c["id"]]
         found = set()
